@@ -147,6 +147,9 @@ func protect(f func()) (panicked any) {
 }
 
 func runC16(r *Run) {
+	// DoQ streams whose handler / whose reply write outlasts the 2 s stream deadline: started now, run beside
+	// everything below (mostly waiting), judged at the end (servedoq.go)
+	slowDoQ := startSlowDoQ16(r)
 	lens := []int{0, 1, 11, 12, 13, 14, 255, 256, 257, 511, 512, 4095, 4096, 8188, 8189, 8190, 8191, 8192, 65533, 65534, 65535, 65536, 65537, 70000}
 	for i := r.N(150, 3000); i > 0; i-- {
 		lens = append(lens, 13+r.Rng.Intn(3000))
@@ -372,7 +375,8 @@ func runC16(r *Run) {
 	serveDoQ16(r, r.N(6, 60))
 	// ---- DoQ streams carry exactly one frame per direction (RFC 9250 4.2)
 	doqScenarios(r, "C16", r.N(40, 400))
-	r.Finish("boundary lengths {0..14,255..257,511,512,4095,4096,8188..8192,65533..65537,70000} + seeded lengths; every in-range write is read back under a seeded chunking (single chunk, 1-byte reads, split header, random, empty reads); read side: 40% valid frames, 20% announced<=12, 20% truncated, 20% random bytes, each under a chunking; packed messages around the 8191-byte scratch buffer; concurrent ServeTCP replies on a wrapped connection; ServeTCP over loopback TCP / net.Pipe with an 80-160 ms idle timeout fed frames cut inside the header / body / at embedded framed data, with pauses beyond the timeout while a query is in flight (only framed messages may reach the handler; also replayed on Model.C16.serve) and, with a 5 s timeout, without pauses (every frame handled and answered); non-trivial = not (valid frame in one chunk)")
+	finishSlowDoQ16(r, slowDoQ)
+	r.Finish("boundary lengths {0..14,255..257,511,512,4095,4096,8188..8192,65533..65537,70000} + seeded lengths; every in-range write is read back under a seeded chunking (single chunk, 1-byte reads, split header, random, empty reads); read side: 40% valid frames, 20% announced<=12, 20% truncated, 20% random bytes, each under a chunking; packed messages around the 8191-byte scratch buffer; concurrent ServeTCP replies on a wrapped connection; ServeTCP over loopback TCP / net.Pipe with an 80-160 ms idle timeout fed frames cut inside the header / body / at embedded framed data, with pauses beyond the timeout while a query is in flight (only framed messages may reach the handler; also replayed on Model.C16.serve) and, with a 5 s timeout, without pauses (every frame handled and answered); the real ServeDoQ over quic-go: one frame per stream, and with handlers returning 2.25-2.9 s after the stream was accepted (beyond the 2 s stream deadline), replies of 9-50 KB against a 1-8 KiB client stream window and clients that start reading 2.3-2.8 s late, all in flight together: every reply the handler returned arrives as exactly one frame before FIN (also replayed on Model.C16.doqStream); non-trivial = not (valid frame in one chunk)")
 }
 
 // clientReadLoops16: the client side of stream framing inside the transports. N queries are in flight on one
